@@ -147,7 +147,9 @@ void harness_framing(void)
 	VP_ASSERT(vp_done_calls + vp_fail_calls + vp_readbody_calls == 1 && vp_other_calls == 0, "C24: end of response headers reaches exactly one continuation");
 	if (vp_done_calls) {
 		VP_ASSERT((permitted & REF_BODY_NONE) || ((permitted & REF_BODY_LENGTH) && ref_len == 0), "C24: response taken as complete without body although RFC 9112 6.3 frames a body");
+#ifndef KF_ONLY_KEEPALIVE_NOLEN
 		if (code == 204) VP_WITNESS("204: no body");
+#endif
 	} else if (vp_fail_calls) {
 		VP_ASSERT(permitted & REF_BODY_REJECT, "C24: regularly framed response failed");
 #if VP_HAS_CL && !VP_HAS_TE
@@ -162,7 +164,7 @@ void harness_framing(void)
 #endif
 		} else if (vp_rb_ntoread < 0) {
 			VP_ASSERT(permitted & REF_BODY_CLOSE, "C24: body read until close although the RFC frames it differently");
-#if !VP_HAS_CL && !VP_HAS_TE
+#if !VP_HAS_CL && !VP_HAS_TE && !defined(KF_ONLY_KEEPALIVE_NOLEN)
 			VP_WITNESS("close-delimited body");
 #endif
 		} else {
